@@ -5,6 +5,8 @@ import (
 	"golang.org/x/tools/go/ssa"
 	"encoding/json"
 	"flag"
+	"go/token"
+	"go/types"
 	"fmt"
 	"os"
 	"path/filepath"
@@ -145,6 +147,86 @@ func verifyStructural(P *Program, C *Contracts, st *Structural) *Unit {
 			desc += " — called from " + strings.Join(callers, ", ")
 		}
 		o := u.oblige(u.Name+"#nocallers", "structural", desc, goal, nil)
+		if goal == "false" {
+			o.Kind = "contract-binding"
+		}
+	case "storesonly":
+		// object invariant support: the field is assigned only inside the listed functions (which are under contract)
+		dot := strings.LastIndex(st.Target, ".")
+		if dot < 0 {
+			u.oblige(u.Name+"#contract-binding", "contract-binding", "storesonly needs Type.field", "false", nil)
+			return u
+		}
+		tname, fname := st.Target[:dot], st.Target[dot+1:]
+		isT := func(t types.Type) bool {
+			for {
+				if p, ok := types.Unalias(t).(*types.Pointer); ok {
+					t = p.Elem()
+					continue
+				}
+				break
+			}
+			n, ok := types.Unalias(t).(*types.Named)
+			return ok && n.Obj().Name() == tname && n.Obj().Pkg() != nil && n.Obj().Pkg().Path() == st.Pkg
+		}
+		found := false
+		var writers []string
+		allowed := func(k string) bool {
+			for _, a := range st.Allowed {
+				if shortKey(k) == a || strings.HasSuffix(k, "."+a) || strings.HasPrefix(shortKey(k), a+"$") {
+					return true
+				}
+			}
+			return false
+		}
+		var keys []string
+		for k := range P.Funcs {
+			if strings.HasPrefix(k, modPath) {
+				keys = append(keys, k)
+			}
+		}
+		sort.Strings(keys)
+		for _, k := range keys {
+			fn := P.Funcs[k]
+			for _, b := range fn.Blocks {
+				for _, ins := range b.Instrs {
+					if fa, ok := ins.(*ssa.FieldAddr); ok && isT(fa.X.Type()) {
+						sty, _, _ := derefStruct(fa.X.Type())
+						if sty != nil && sty.Field(fa.Field).Name() == fname {
+							found = true
+							// any use other than a load is treated as a possible store (address escapes, Store)
+							for _, ref := range *fa.Referrers() {
+								if un, ok := ref.(*ssa.UnOp); ok && un.Op == token.MUL {
+									continue
+								}
+								if _, ok := ref.(*ssa.DebugRef); ok {
+									continue
+								}
+								if !allowed(k) {
+									writers = append(writers, shortKey(k))
+								}
+							}
+						}
+					}
+					if stI, ok := ins.(*ssa.Store); ok && isT(stI.Val.Type()) {
+						if _, isPtr := types.Unalias(stI.Val.Type()).(*types.Pointer); !isPtr && !allowed(k) {
+							writers = append(writers, shortKey(k)+" (whole-struct store)")
+						}
+					}
+				}
+			}
+		}
+		goal := "true"
+		desc := "field " + st.Target + " is assigned only in " + strings.Join(st.Allowed, ", ") + ": " + st.Why
+		if !found {
+			goal = "false"
+			desc += " — no such field access found"
+		}
+		if len(writers) > 0 {
+			goal = "false"
+			desc += " — also written (or its address taken) in " + strings.Join(writers, ", ")
+		}
+		o := u.oblige(u.Name+"#storesonly", "structural", desc, goal, nil)
 		if goal == "false" {
 			o.Kind = "contract-binding"
 		}
